@@ -635,7 +635,7 @@ def run_programs(ck, symidx):
             if used:
                 ck.stat(stream, "roundtrip:lost:float-literal-classes-only")
                 for c in used:
-                    ck.disagreement("formatting changes the program (float literal)", case, (lambda cc, c=c: {"float-integral": "F11-float-integral", "float-nonfinite": "F11-float-nonfinite"}[c]))
+                    ck.disagreement("formatting changes the program (float literal)", case, (lambda cc, c=c: {"float-integral": "F11-float-integral"}.get(c)))
                 continue
             ck.disagreement("program round trip: model and implementation disagree", dict(case, real_roundtrips=real_ok, model_roundtrips=model_rt, known=known_m), None)
             continue
@@ -790,7 +790,7 @@ def run_literals(ck, info):
             ck.disagreement("a printed integer does not lex back to itself", {"int": i, "model_back": str(back), "real_lex": str(rl)}, None)
     # floats
     fl = ["0.5", "1.5", "0.1", "0.25", "3.14159", "123456.789", "1e-7", "1.5e-7", "5e-324", "0.30000000000000004", "1.7976931348623157e308", "2.5", "1e21", "1e22", "1.0", "0.0", "2.0",
-          "100.0", "1e3", "9007199254740993.0", "9223372036854775808.0", "1e19", "12345678901234567890.0", "inf", "4.9e-320", "1e100", "0.000001", "1e-10", "123.456e5", "6.02e23"]
+          "100.0", "1e3", "9007199254740993.0", "9223372036854775808.0", "1e19", "12345678901234567890.0", "4.9e-320", "1e100", "0.000001", "1e-10", "123.456e5", "6.02e23"]
     for _ in range(ck.n(150, 5000)):
         k = rng.random()
         if k < 0.4:
@@ -849,7 +849,7 @@ def run_literals(ck, info):
         if not real_same:
             cls = None
             if known:
-                cls = "F11-float-nonfinite" if t == "FInf" else "F11-float-integral"
+                cls = None if t == "FInf" else "F11-float-integral"     # (inf: no source lexes to it since d8fda67)
             ck.disagreement("a printed float does not lex back to itself", dict(case, real_lex=str(rl)[:200]), (lambda c, cls=cls: cls))
     # identifiers: display_ident_part (expression position) and write_ident_part (alias position) through the formatter
     parts = list(dict.fromkeys(G.PLAIN_IDS + G.QUOTED_IDS + G.KEYWORD_IDS + ["x$", "$", "_", "a1", "A_b", "ä", "a b c", "1", "a.b.c", "in", "this", "true1", "nul", "r", "s", "f", "е", "a\nb", "a\tb", "semi;colon"]))
